@@ -440,6 +440,23 @@ func (s *Server) Inject(f Frame) {
 	}
 }
 
+// ReplayLast makes every open stream deliver its last k delivered log entries
+// again, oldest first (a server replaying from an earlier position).
+func (s *Server) ReplayLast(k int) {
+	s.mu.Lock()
+	defer s.mu.Unlock()
+	for _, c := range s.live() {
+		start := c.pos - k
+		if start < 0 {
+			start = 0
+		}
+		for _, e := range s.log[start:c.pos] {
+			c.pending = append(c.pending, Frame{Type: e.Type, Obj: e.Obj.Go().(runtime.Object)})
+		}
+		c.kick()
+	}
+}
+
 // DropNext makes every open stream silently skip its next k log entries.
 func (s *Server) DropNext(k int) {
 	s.mu.Lock()
